@@ -41,6 +41,7 @@ ASSUMPTIONS = ["solving is attempted only for boards with <= 64 tiles in the qui
 TINY = 5e-324
 ALMOST1 = 1 - 2 ** -53
 K2 = "K2"
+THOROUGH_SCALE = 2
 PROB = st.one_of(st.sampled_from((0.1, 0.3, 0.5, 0.9, 1e-9, TINY, ALMOST1, 0.999)), st.floats(0.001, 0.999))
 
 
